@@ -19,9 +19,9 @@ ASSUMPTIONS = [
     "lines the conservative lexer does not fully understand are left untouched (fraction reported)",
     "case rewrites are skipped for tests assembled with -U (case-sensitive mode)",
     "line-number-changing rewrites (blank, macro, include) are skipped for sources mentioning MOMLINE; include/macro "
-    "wrapping for sources mentioning MOMFILE or END or that are assembled with a CPU given only on the command line",
-    "macro wrapping is skipped for sources that define macros themselves (the outer expansion would substitute its "
-    "implicit parameters inside the nested definitions), use SECTION (interplay of macro-local and section-local "
+    "wrapping for sources mentioning MOMFILE or that are assembled with a CPU given only on the command line",
+    "macro wrapping is skipped for sources that define macros themselves and use ALLARGS/ARGCOUNT/ATTRIBUTE/SHIFT (the outer expansion would substitute its "
+    "implicit parameters inside the nested definitions); an END statement and the text behind it stay behind the wrapper (no macro wrapping when END names an entry label: it would become local); use SECTION (interplay of macro-local and section-local "
     "labels is not defined by the manual) or use {symbol} expansion in the instruction field (evaluated while a "
     "macro body is read)",
 ]
@@ -42,22 +42,27 @@ def meta(name):
     src = t["src"].decode("latin-1")
     up = src.upper()
     allsrc = up + "".join(v.decode("latin-1").upper() for k, v in t["extra"].items()
-                          if k.lower().endswith((".inc", ".asm")))
+                          if not k.lower().endswith((".ori", ".doc", ".bin", ".p")) and k != "asflags")
     m = dict(
         caseok="-U" not in t["flags"],
         lineok="MOMLINE" not in allsrc,
-        wrapok=("MOMFILE" not in allsrc and not re.search(r"^\s+END\b", up, re.M)),
+        wrapok="MOMFILE" not in allsrc,
     )
     # a body moved into a macro: static exclusions, each tied to a documented rule
-    #  - the body defines macros itself: the outer expansion substitutes its implicit parameters
-    #    (ALLARGS, ARGCOUNT, ATTRIBUTE, SHIFT context) inside nested definitions (manual: textual insertion)
+    #  - the body defines macros itself AND uses an implicit parameter name: the outer expansion substitutes its
+    #    own ALLARGS / ARGCOUNT / ATTRIBUTE (and SHIFT would act on it) inside nested definitions (manual:
+    #    textual insertion)
     #  - SECTION: labels in a macro body are local to the expansion, the manual does not define how this
     #    combines with section-local names of equal spelling
     #  - {symbol} expansion in the instruction field is evaluated while the macro body is *read*
     #    (documented in tests/t_78k4 itself), i.e. before the SET statements inside the body run
     m["macrook"] = (m["wrapok"] and m["lineok"]
-                    and not re.search(r"\b(MACRO|SECTION|ENDSECTION)\b", allsrc)
-                    and not re.search(r"^\S*[ \t]+[^ \t;]*\{", up, re.M))
+                    and not re.search(r"\b(SECTION|ENDSECTION)\b", allsrc)
+                    and not (re.search(r"\bMACRO\b", allsrc)
+                             and re.search(r"\b(ALLARGS|ARGCOUNT|ATTRIBUTE|SHIFT|__LABEL__)\b", allsrc))
+                    and not re.search(r"^\S*[ \t]+[^ \t;]*\{", up, re.M)
+                    # END <entry label>: the label would become local to the wrapper's expansion
+                    and not re.search(r"^[ \t]+END[ \t]+[^;\s]", up, re.M))
     _meta[name] = m
     return m
 
